@@ -66,45 +66,53 @@ def check_model(mk_shadow, mk_real, name, M, sh, mm, qt):
     def fn():
         m = mk_shadow()
         n = len(m.pulses)
-        I = [SC.var('I%d' % k) for k in range(n)]
-        text = _report(M, sh, m, I)
-        rep = kcl.parse_current_report(text, m)
-        exp, js = _expected(m, I)
-        goals = {'junction-end current = through current': [], 'KCL': [], 'end lines': []}
-        structure_ok = True
-        printed = {}
-        for gi, ends in enumerate(exp):
-            marks = list(rep[gi]['marks'])
-            want = [(k, v, j) for (k, v, j) in ends if k != 'G']
-            if len(marks) != len(want):
-                structure_ok = False
-                continue
-            # a mark printed before any row is end 1; marks keep end order
-            for (kind, rows_before, fields), (wk, wv, wj), e in zip(
-                    marks, want, [e for e, x in enumerate(ends) if x[0] != 'G']):
-                if kind != wk:
+        def one_report(I, prefix):
+            text = _report(M, sh, m, I)
+            rep = kcl.parse_current_report(text, m)
+            exp, js = _expected(m, I)
+            goals = {prefix + 'junction-end current = through current': [], prefix + 'KCL': [], prefix + 'end lines': []}
+            structure_ok = True
+            printed = {}
+            for gi, ends in enumerate(exp):
+                marks = list(rep[gi]['marks'])
+                want = [(k, v, j) for (k, v, j) in ends if k != 'G']
+                if len(marks) != len(want):
                     structure_ok = False
                     continue
-                if kind == 'E':
-                    ok = all(f.strip() == '0' for f in fields[:4])
-                    goals['end lines'].append(z3.BoolVal(ok))
+                # a mark printed before any row is end 1; marks keep end order
+                for (kind, rows_before, fields), (wk, wv, wj), e in zip(
+                        marks, want, [e for e, x in enumerate(ends) if x[0] != 'G']):
+                    if kind != wk:
+                        structure_ok = False
+                        continue
+                    if kind == 'E':
+                        ok = all(f.strip() == '0' for f in fields[:4])
+                        goals[prefix + 'end lines'].append(z3.BoolVal(ok))
+                    else:
+                        c = SC(tokens.read_exact(fields[0]), tokens.read_exact(fields[1]))
+                        printed[(gi, e)] = (c, wj)
+                        goals[prefix + 'junction-end current = through current'].append(eq_term(c, wv))
+            # KCL on the printed values: + at second ends, - at first ends
+            for ji in range(len(js)):
+                tot = SC(0.0, 0.0)
+                cnt = 0
+                for (gi, e), (c, wj) in printed.items():
+                    if wj == ji:
+                        tot = tot + (c if e == 1 else -c)
+                        cnt += 1
+                if cnt == len(js[ji]):
+                    goals[prefix + 'KCL'].append(eq_term(tot, 0j))
                 else:
-                    c = SC(tokens.read_exact(fields[0]), tokens.read_exact(fields[1]))
-                    printed[(gi, e)] = (c, wj)
-                    goals['junction-end current = through current'].append(eq_term(c, wv))
-        # KCL on the printed values: + at second ends, - at first ends
-        for ji in range(len(js)):
-            tot = SC(0.0, 0.0)
-            cnt = 0
-            for (gi, e), (c, wj) in printed.items():
-                if wj == ji:
-                    tot = tot + (c if e == 1 else -c)
-                    cnt += 1
-            if cnt == len(js[ji]):
-                goals['KCL'].append(eq_term(tot, 0j))
-            else:
-                structure_ok = False
-        return dict(I=I, goals=goals, structure_ok=structure_ok, n=n, njunc=len(js))
+                    structure_ok = False
+            return goals, structure_ok, len(js)
+        I = [SC.var('I%d' % k) for k in range(n)]
+        goals, structure_ok, nj = one_report(I, '')
+        # the same object solved again (other excitation, same frequency): the report is written a second time for new currents
+        I2 = [SC.var('J%d' % k) for k in range(n)]
+        g2, ok2, _ = one_report(I2, 'second solution on the same object: ')
+        goals.update(g2)
+        structure_ok = structure_ok and ok2
+        return dict(I=I, I2=I2, goals=goals, structure_ok=structure_ok, n=n, njunc=nj)
 
     paths = symx.explore(fn, query_timeout_ms=qt, max_paths=20)
     stats = dict(paths=len(paths), solver_s=paths.solver_s, queries=paths.queries)
@@ -136,19 +144,28 @@ def check_model(mk_shadow, mk_real, name, M, sh, mm, qt):
             else:
                 mdl = s.model()
                 Ic = [core.model_value(mdl, x) for x in o['I']]
-                viol = replay(mk_real, mm, name, Ic)
+                Ic2 = [core.model_value(mdl, x) for x in o['I2']] if gname.startswith('second') else None
+                viol = replay(mk_real, mm, name, Ic, Ic2)
                 out.append((oname, 'violation' if viol else 'spurious', dict(currents=[str(x) for x in Ic]), viol))
     return out, stats
 
 
-def replay(mk_real, mm, name, Ic):
-    """Concrete replay on the untouched package with the real format_float."""
+def replay(mk_real, mm, name, Ic, Ic2=None):
+    """Concrete replay on the untouched package with the real format_float (Ic2: the report is written for Ic first and then,
+    on the same object, for the second solution Ic2, which is the one evaluated)."""
     m = mk_real()
     n = len(m.pulses)
     if Ic is None:
         Ic = [complex(1 + k, 0.5 * k - 1) for k in range(n)]
     m.current = np.array([complex(x) for x in Ic])
     text = m.currents_as_mininec()
+    if Ic2 is not None:
+        if max(abs(complex(x)) for x in Ic2) == 0 or all(complex(a) == complex(b) for a, b in zip(Ic, Ic2)):
+            Ic2 = [complex(0.5 - k, 2 + 0.25 * k) for k in range(n)]
+        m.current = np.array([complex(x) for x in Ic2])
+        text = m.currents_as_mininec()
+        name = name + ' (second solution on the same object)'
+        Ic = Ic2
     rep = kcl.parse_current_report(text, m)
     exp, js = _expected(m, m.current)
     scale = max(abs(m.current).max(), 1e-300)
